@@ -25,3 +25,4 @@ def run(ctx, rep):
     import re as _re
     more6.rule_precision_family(mod, rep, floor=20, sel=lambda f: _re.search(r"gsrfs|gssvx|lacon|sp_.trsv|sp_.gemv", f.name) is not None)
     more6.rule_stale(mod, rep)
+    more6.rule_max1_scan(mod, rep, config=ctx.config)
